@@ -3,9 +3,10 @@ from collections import deque
 
 
 class Op:
-    __slots__ = ("gap", "we", "addr", "data", "wemask", "seq", "offer", "accept", "done", "tag")
+    __slots__ = ("gap", "we", "addr", "data", "wemask", "seq", "offer", "accept", "done", "tag", "last")
 
-    def __init__(self, gap, we, addr, data=0, wemask=0, tag=None):
+    def __init__(self, gap, we, addr, data=0, wemask=0, tag=None, last=0):
+        self.last = last
         self.gap = gap
         self.we = we
         self.addr = addr
@@ -109,6 +110,9 @@ class NativeMaster:
         self.on_done = None
         self.max_cmd_wait = 0
         self.max_data_wait = 0
+        self.use_last = False
+        self.rdata_log = []
+        self.strobe_semantics = True   # False for stream-style user ports of front-ends (ready without valid is idle)
 
     def idle(self):
         return (self.issued_all or self.stop) and not self.wq and not self.rq and not self._cmd_valid
@@ -158,12 +162,13 @@ class NativeMaster:
                     self.wbeats += 1
                     if op.accept is not None:
                         self.max_data_wait = max(self.max_data_wait, cyc - op.accept)
-                    else:
+                    elif self.strobe_semantics:
                         self.violations.append(dict(kind="wdata-taken-before-command-accepted", port=self.idx,
                                                     cycle=cyc, op=op.brief()))
                     if self.on_done:
                         self.on_done(self, op, cyc)
-                else:
+                elif self.strobe_semantics:
+                    # directly on the crossbar wdata.ready is a strobe: it only fires for an accepted write
                     self.underruns += 1
                     self.violations.append(dict(kind="wdata-strobe-without-pending-write", port=self.idx, cycle=cyc))
             if rvalid:
@@ -205,6 +210,8 @@ class NativeMaster:
                         cur = nxt
                         cmd_valid = 1
                         stmts += [port.cmd.valid.eq(1), port.cmd.we.eq(int(cur.we)), port.cmd.addr.eq(cur.addr)]
+                        if self.use_last:
+                            stmts.append(port.cmd.last.eq(int(cur.last)))
                         if cur.we:
                             self.wq.append(cur)
             if not cmd_valid and self._cmd_valid:
